@@ -24,62 +24,103 @@ def in_scope(m):
 
 
 def r1_never_raises(ctx, sym):
-    ctx.rule('R1', "process_code: the parse and the traversal are raise points for every Exception atom; none reaches "
-                   "the exceptional exit; each handler records analysis.fail(error) and a system_error; the function "
-                   "returns self.analysis on every path (CFG with exception edges)")
+    ctx.rule('R1', "Tifa.process_code executed abstractly for every failure point (the parse, the traversal, neither) x "
+                   "exception class, in the state an aborted traversal leaves behind (a current node without a line "
+                   "number): nothing leaves process_code, a failure is recorded by exactly one analysis.fail(error) "
+                   "with the raised error and one system_error on the tool's report, and the analysis object is "
+                   "returned on every path")
+    from .. import symexec
     mod = ctx.repo.module(VISITOR)
     fn = mod.func('Tifa.process_code')
     ctx.analysed_function(mod, fn)
+    kinds = ['SyntaxError', 'ValueError', 'RecursionError', 'MemoryError', 'KeyError', 'AttributeError', 'TypeError']
+    n = 0
+    for where in ('none', 'parse', 'traverse'):
+        for kind in (kinds if where != 'none' else [None]):
+            for with_submission in (True, False):
+                n += 1
+                rec = symexec.Recorder()
+                err = Obj('error', exc_kind=kind)
+                analysis = Obj('TifaAnalysis')
+                symexec.method(analysis, 'fail', rec.stub('analysis.fail'))
+                tree = symexec.marker('tree')
 
-    def raises(n):
-        if isinstance(n, ast.withitem):
-            return ()
-        for c in walk_local(n):
-            if isinstance(c, ast.Call):
-                if call_name(c) == 'ast.parse':
-                    return EXCEPTION_DOWN
-                # any method of the analyser may fail on state the traversal left behind (locate() dereferences the
-                # current node's lineno); only the two recording calls are taken not to raise
-                if isinstance(c.func, ast.Attribute) and norm(c.func.value) == 'self' and \
-                        any(isinstance(a, ast.ExceptHandler) for a in ancestors(c)):
-                    return EXCEPTION_DOWN
-                if isinstance(c.func, ast.Attribute) and c.func.attr in ('process_ast', 'visit') and \
-                        norm(c.func.value) == 'self':
-                    return EXCEPTION_DOWN
-        return ()
-    g = CFG(fn, raises=raises)
-    points = g.nodes_calling(lambda c: call_name(c) == 'ast.parse' or (
-        isinstance(c.func, ast.Attribute) and c.func.attr == 'process_ast'))
-    ctx.check(len(points) >= 2, 'R1', 'process_code:raise-points', mod, fn,
-              "process_code no longer parses and traverses (found %d of 2 raise points)" % len(points),
-              "analysis does nothing", construct='process_code')
-    escaped = frozenset()
-    wit = None
-    for p, label in g.pred[g.xexit.id]:
-        if isinstance(label, frozenset):
-            escaped |= label
-            wit = wit or g.nodes[p]
-    ctx.check(not (escaped & EXCEPTION_DOWN), 'R1', 'process_code:never-raises', mod, wit.ast if wit else fn,
-              "{%s} raised while parsing/traversing leaves tifa_analysis as a raw exception" % describe(
-                  escaped & EXCEPTION_DOWN),
-              "a valid program containing a construct TIFA mishandles (internal KeyError/AttributeError): "
-              "tifa_analysis() raises instead of returning a failed analysis")
-    for t in [t for t in ast.walk(fn) if isinstance(t, ast.Try)]:
-        for h in t.handlers:
-            tag = 'process_code:handler@%s' % ('parse' if any(call_name(c) == 'ast.parse' for c in calls(
-                ast.Module(body=t.body, type_ignores=[]))) else 'traverse')
-            fails = [c for c in calls(h) if norm(c.func) == 'self.analysis.fail']
-            syserr = [c for c in calls(h) if call_name(c) == 'system_error']
-            ok = len(fails) == 1 and len(syserr) == 1 and h.name is not None and norm(fails[0].args[0]) == h.name \
-                and norm(kw(syserr[0], 'report')) == 'self.report'
-            ctx.check(ok, 'R1', tag, mod, h,
-                      "the handler does not record analysis.fail(error) and one system_error on the tool's report",
-                      "an internal failure is silently reported as a completed analysis")
-    rets = [n for n in body_walk(fn) if isinstance(n, ast.Return)]
-    ctx.check(bool(rets) and all(norm(r.value) == 'self.analysis' for r in rets) and
-              g.exit.id not in g.reachable([g.entry], [x for x in g.nodes if isinstance(x.ast, ast.Return)]),
-              'R1', 'process_code:returns-analysis', mod, fn, "process_code does not return self.analysis on every path",
-              "tifa_analysis returns None")
+                def parse(*a, **k):
+                    rec.events.append(('ast.parse', a, k))
+                    if where == 'parse':
+                        raise Raised(kind, payload=err)
+                    return tree
+
+                def process_ast(t):
+                    rec.events.append(('process_ast', (t,), {}))
+                    if where == 'traverse':
+                        raise Raised(kind, payload=err)
+                submission = Obj('submission', main_file='answer.py', line_offsets={'answer.py': 3}) \
+                    if with_submission else None
+                report = Obj('report', submission=submission)
+                # the node the traversal was at when it failed: ast nodes such as `arguments` carry no lineno
+                broken_node = Obj('ast.arguments')
+                broken_node.attrs['__closed__'] = True
+                me = symexec.self_obj(mod, 'Tifa', report=report, analysis=None, node_chain=[broken_node],
+                                      final_node=broken_node, line_offset=0)
+                symexec.method(me, 'process_ast', process_ast)
+                fd = symexec.new_fd(sym, mod, calls={
+                    'ast.parse': parse, 'TifaAnalysis': lambda *a, **k: analysis,
+                    'system_error': rec.stub('system_error', ret=Obj('feedback')),
+                    'str': lambda x: 'text of the error', 'Location': lambda *a, **k: Obj('location')})
+                value, raised = symexec.run(fd, fn, ['x = 1', None], bound_self=me, what='Tifa.process_code')
+                tag = 'process_code[%s raises %s%s]' % (where, kind, '' if with_submission else ',no submission')
+                ctx.check(raised is None, 'R1', tag + ':never-raises', mod, getattr(raised, 'node', None) or fn,
+                          "%s raised while %s leaves process_code as %s" % (
+                              kind, {'parse': 'parsing', 'traverse': 'traversing', 'none': 'nothing failed'}[where],
+                              getattr(raised, 'kind', None)),
+                          "a valid program containing a construct TIFA mishandles (internal KeyError/AttributeError): "
+                          "tifa_analysis() raises instead of returning a failed analysis")
+                if raised is not None:
+                    continue
+                fails, sys_ = rec.named('analysis.fail'), rec.named('system_error')
+                if where == 'none':
+                    ok = not fails and not sys_ and value is analysis and len(rec.named('process_ast')) == 1 and \
+                        rec.named('process_ast')[0][1][0] is tree
+                    ctx.check(ok, 'R1', tag + ':clean', mod, fn,
+                              "a program that parses and traverses records %d failure(s), %d system error(s), returns "
+                              "%r" % (len(fails), len(sys_), value), "every analysis is reported as failed")
+                    continue
+                ok = len(fails) == 1 and fails[0][1] and fails[0][1][0] is err and len(sys_) == 1 and \
+                    sys_[0][2].get('report') is report
+                ctx.check(ok, 'R1', 'process_code:handler@%s[%s%s]' % (where, kind, '' if with_submission else
+                                                                        ',no submission'), mod, fn,
+                          "the failure is not recorded by one analysis.fail(error) and one system_error on the tool's "
+                          "report (%d / %d)" % (len(fails), len(sys_)),
+                          "an internal failure is silently reported as a completed analysis")
+                ctx.check(value is analysis, 'R1', tag + ':returns-analysis', mod, fn,
+                          "process_code returns %r instead of the analysis" % (value,), "tifa_analysis returns None")
+                if where == 'parse':
+                    ctx.check(not rec.named('process_ast'), 'R1', tag + ':no-traversal', mod, fn,
+                              "the traversal runs although the parse failed", "a second system error")
+    ctx.floor('R1', 'process_code scenarios', n, 25)
+    line_offset_rule(ctx, sym, 'R1')
+
+
+def line_offset_rule(ctx, sym, rule):
+    """The line offset used by TifaCore.locate() is the submission's offset for the file analysed (process_code
+    executed abstractly for the main file, another known file and an unknown file)."""
+    from .. import symexec
+    mod = ctx.repo.module(VISITOR)
+    fn = mod.func('Tifa.process_code')
+    rec = symexec.Recorder()
+    submission = Obj('submission', main_file='answer.py', line_offsets={'answer.py': 3, 'other.py': 9})
+    me = symexec.self_obj(mod, 'Tifa', report=Obj('report', submission=submission), analysis=None, node_chain=[],
+                          line_offset=0)
+    symexec.method(me, 'process_ast', lambda t: None)
+    for fname, want in ((None, 3), ('other.py', 9), ('unknown.py', 0)):
+        fd = symexec.new_fd(sym, mod, calls={'ast.parse': lambda *a, **k: 'tree',
+                                             'TifaAnalysis': lambda *a, **k: Obj('TifaAnalysis')})
+        symexec.run(fd, fn, ['x = 1', fname], bound_self=me, what='Tifa.process_code')
+        ctx.check(me.attrs.get('line_offset') == want, rule, 'tifa:line_offset-source[%s]' % fname, mod, fn,
+                  "analysing %s sets line_offset=%r, the submission's offset for that file is %r" % (
+                      fname or 'the main file', me.attrs.get('line_offset'), want),
+                  "TIFA lines ignore the active section")
 
 
 def r2_idempotent(ctx, sym):
